@@ -88,6 +88,14 @@ class C10(LZCheckMixin, PropertyCheck):
         for n in range(0, 70):
             for kind in ("lz10c", "lz13c"):
                 add(kind, bytes((i * 37 + 11) % 251 for i in range(n)), "expansion-all-literals")
+        # long tables of padded records: a period that does not divide 4096, with an internal repetition longer than 272 bytes
+        # (seeded change C10-6 probed the window with a 0x110-byte look-ahead and extended the FARTHEST occurrence: about twice the
+        # references the bound allows, visible only from several hundred KB on); P tokens keep the case lines short
+        for (pad, tail, n) in ((286, bytes([9, 8, 7, 6, 5, 4]), 500000), (300, b"\x01\x02\x03", 400000), (1000, bytes(range(1, 25)), 600000)):
+            pat = bytes(pad) + tail
+            tok = "P%d:%s" % (n, pat.hex())
+            for kind in ("lz10c", "lz13c"):
+                cases.append(Case("%s 0 %s" % (kind, tok), "periodic-padded-records-long"))
         # repeats that continue beyond the longest LZ11 match (65808 bytes), 2^17, ~140000: implementation + inequalities only
         for name, data, _ in long_compressible_inputs(rng, tier):
             for kind in ("lz10c", "lz13c"):
